@@ -141,7 +141,7 @@ pub fn gen_c06(r: &mut Rng, tier: Tier) -> Case {
     // the same type name in different crates is legitimate in multi-file mode (own file each)
     o.same_names_other_crate = mode == Mode::Folder && r.chance(1, 3);
     o.symlinks = r.chance(1, 8);
-    o.reexports = std::env::var_os("VERIF_PROBE_REEXPORTS").is_some() && r.chance(1, 3);
+    o.reexports = mode == Mode::Folder && r.chance(1, 4);
     if o.symlinks {
         // the shared file's items exist twice: keep every name unique so that the two copies are
         // the only same-named items (identical text, hence no tie to break)
@@ -543,6 +543,28 @@ pub fn gen_c07(r: &mut Rng, tier: Tier) -> Case {
         }
         ops.push(inv);
     }
+    // sometimes a follow-up run into the same, already populated output location, with something
+    // going wrong only there (an obstacle in place of one of the files, a write fault)
+    if r.chance(1, 8) {
+        if let Some(first) = ops.first().cloned() {
+            let mut again = first;
+            again.fresh_out = false;
+            again.role = "followup".into();
+            again.faults.clear();
+            again.knobs = random_knobs(r, false);
+            again.sched = random_sched(r);
+            again.hash_seed = r.next();
+            match r.below(3) {
+                0 => again.obstacle = 2 + r.below(6) as u8,
+                1 => again.faults.push(Fault::Write { nth: r.below(3) as u32, kind: IoKind::Eio }),
+                _ => {}
+            }
+            ops.truncate(1);
+            ops[0].faults.clear();
+            ops[0].obstacle = 0;
+            ops.push(again);
+        }
+    }
     Case { property: "C07".into(), versions: vec![tree], ops, notes, preseed: vec![] }
 }
 
@@ -577,6 +599,21 @@ fn eval_c07(case: &Case, sc: &mut Scratch, res: &mut EvalResult) {
     let lossy = |p: &str| super::exec::decode_path(p).to_string_lossy().into_owned();
     let annotated: std::collections::BTreeSet<String> = tree.iter().filter(|f| f.is_annotated()).map(|f| format!("ws/{}", lossy(&f.path))).collect();
     for (idx, inv) in case.ops.iter().enumerate() {
+        let mut blocked_file: Option<String> = None;
+        if inv.obstacle >= 2 && !inv.fresh_out {
+            // something sits where one of the existing output files has to be rewritten: replace
+            // the n-th file by a directory and change the sources' output for it (by emptying the
+            // file first, so that the tool has to write it again)
+            let snap = super::exec::snapshot(&out);
+            let files: Vec<&String> = snap.keys().filter(|k| !k.ends_with('/') && !k.is_empty()).collect();
+            if !files.is_empty() {
+                let f = files[(inv.obstacle as usize - 2) % files.len()].clone();
+                let p = out.join(&f);
+                let _ = std::fs::remove_file(&p);
+                let _ = std::fs::create_dir_all(&p);
+                blocked_file = Some(f);
+            }
+        }
         let o = run_invocation(sc, tree, inv, &out);
         res.stats.record(td, tree.len(), inv, &o, 1, false);
         let mut push = |class: &str, detail: String, message: String| {
@@ -627,12 +664,40 @@ fn eval_c07(case: &Case, sc: &mut Scratch, res: &mut EvalResult) {
                         silently.push(format!("ws/{rp} (missing_root)"));
                     }
                 }
+                // is a tree path below one of the directories handed to the CLI, and not excluded by
+                // the walker's documented rules (hidden files, ignore files, tools/typeshare)?
+                let follows = inv.extra.iter().any(|e| e == "--follow-links");
+                let visible = |p: &str| -> bool {
+                    let under_root = inv.roots.is_empty()
+                        || inv.roots.iter().any(|r| {
+                            let r = r.trim_start_matches("./").trim_end_matches('/');
+                            r.is_empty() || r == "." || p == r || p.starts_with(&format!("{r}/"))
+                        });
+                    under_root
+                        && p.ends_with(".rs")
+                        && p.contains("/src/")
+                        && !p.contains("ignored_dir/")
+                        && !p.contains("/.")
+                        && !p.contains("tools/typeshare/")
+                        && !(follows && tree.iter().any(|f| f.kind == FileKind::SymlinkLoop))
+                };
                 for p in &must_fail_paths {
-                    let p = &lossy(p);
-                    // only if the walker can see it and, in folder mode, it belongs to a crate
-                    if o.oplog.iter().any(|op| op.op == "read_src" && op.path == format!("ws/{p}")) {
-                        silently.push(format!("ws/{p} (unparsable annotated input)"));
+                    if visible(p) {
+                        silently.push(format!("ws/{} (unparsable annotated input)", lossy(p)));
                     }
+                }
+                // success means every visible source file with annotated items went through the
+                // parser: nothing was dropped on the way (a root, a sub-tree, a file)
+                res.stats.check("c07_all_sources_read");
+                for f in tree.iter().filter(|f| f.is_annotated() && visible(&f.path)) {
+                    let lp = format!("ws/{}", lossy(&f.path));
+                    if !o.oplog.iter().any(|op| op.op == "read_src" && op.path == lp) {
+                        silently.push(format!("{lp} (file_not_read)"));
+                        break;
+                    }
+                }
+                if let Some(b) = &blocked_file {
+                    silently.push(format!("out/{b} (blocked_by_directory)"));
                 }
                 if !silently.is_empty() {
                     push(
@@ -758,7 +823,14 @@ pub fn gen_c08(r: &mut Rng, tier: Tier) -> Case {
     let (lang, mode) = pick_lang_mode(r);
     let mut o = gen_opts_for(&lang, r, tier);
     o.glob_named = false;
-    let world = gen::gen_world(r, &o);
+    let mut world = gen::gen_world(r, &o);
+    // sometimes the construct is the only annotated item of the whole workspace (multi-file mode:
+    // a workspace without annotated items is a valid, empty run)
+    if mode == Mode::Folder && r.chance(1, 12) {
+        for it in world.items.iter_mut() {
+            it.annotated = false;
+        }
+    }
     let good = world.render();
     // half of the cases take a construct from the fixed catalogue, half generate one at a nested
     // position (container chains up to depth 5, seven item positions)
@@ -769,11 +841,18 @@ pub fn gen_c08(r: &mut Rng, tier: Tier) -> Case {
         gen::gen_nested_poison(r)
     };
     // the construct may sit in a nested module, next to valid items, or alone in its file
+    // nesting: modules, or (chosen once per case) a function body / a const block
+    let wrap_kind = r.below(8);
     let wrap = |text: &str, depth: u64| -> String {
         let mut t = text.to_string();
         for d in 0..depth {
             let body: String = t.lines().map(|l| format!("    {l}\n")).collect();
-            t = format!("pub mod nested{d} {{\n    use super::*;\n{body}}}\n");
+            t = match wrap_kind {
+                0 => format!("pub fn scope_{d}() {{\n{body}}}\n"),
+                1 => format!("const _: () = {{\n{body}}};\n"),
+                2 => format!("pub struct Holder{d};\nimpl Holder{d} {{\n    pub fn method(&self) {{\n{body}    }}\n}}\n"),
+                _ => format!("pub mod nested{d} {{\n    use super::*;\n{body}}}\n"),
+            };
         }
         t
     };
@@ -1001,6 +1080,8 @@ pub fn gen_c17(r: &mut Rng, tier: Tier) -> Case {
     let mut o = gen_opts_for(&lang, r, tier);
     // Codable.swift is in play whenever a `()` is present
     o.unit_fields = true;
+    o.reexports = mode == Mode::Folder && r.chance(1, 4);
+    o.same_names_other_crate = mode == Mode::Folder && r.chance(1, 4);
     let mut lang2 = lang.clone();
     if r.chance(1, 6) {
         // a second language writing into the same location
